@@ -33,25 +33,33 @@ NOTES = {  # seed -> (detected_by, note) overriding / complementing the logged r
  'C38-1': ('C38 (msort-sorted-permutation)', 'missed at first: every list was smaller than the 4 KiB buffer of the str reader; caught after a 600-element and a 40x200-byte list were added'),
  'C38-2': ('C38 (left-map)', 'missed at first: no element was malformed UTF-8; caught after the element \\xffab was added to the str lists (and the model made byte-preserving)'),
  'C31-2': ('C31 (verdict, multi-plan runs)', 'missed at first (one plan per case); caught after multi-plan runs were added: three functions, every pass/fail assignment and registration order, run together with `*`, each plan must be reported on its own merits'),
+ 'C02-r2-2': ('C02 (declared-type-returned)', 'missed at first: the change introduces a TryLock, and the scheduler had no scheduling point while a lock is held just before its release (a reduction that is only sound for blocking locks), so a TryLock could never fail; caught after mkoverlay counts TryLock calls and sched.sh then builds the shim with a pre-unlock scheduling point (tag vtrylock)'),
+ 'C26-r2-1': ('C26 (pipe-closed-once)', 'missed at first (the registry-level model cannot see a pipe being closed twice); caught after a counted pipe type and the clause "the registry closes a pipe object at most once" were added'),
+ 'C03-r2-1': ('C03 (sequential-meaning)', 'missed at first: no program used the method form of if, and the differential oracle alone does not see a change that makes every explored schedule wrong in the same way; caught after the program and literal expectations were added'),
+ 'C03-r2-2': ('C03 (sequential-meaning)', 'missed at first: no program had a downstream stage that ignores its stdin followed by a statement writing to the same stream; caught after the program and its literal expectation were added'),
+ 'C05-r2-1': ('C05 (exit, method variants)', 'missed at first: no try block was used as a method; caught after the method-try / method-runmode-try / method-trypipe variants were added'),
+ 'C05-r2-2': ('C05 (stdout, nested variants)', 'missed at first: no block of one kind was nested in a function of the other run mode; caught after the nested variants were added'),
  'C19-2': ('NOT DETECTED', 'needs a pipe constructor that fails while returning a typed-nil (pty without /dev/ptmx, or a no_pipe_net build): no such failure can be provoked from the command alphabet'),
 }
 ROOT = '/verif'
-logs = ''.join(open(f).read() for f in sorted(glob.glob(f'{ROOT}/.work/seedrun-*.log')))
+logs = ''.join(open(f).read() for f in sorted(glob.glob(f'{ROOT}/.work/seedrun-*.log')) + sorted(glob.glob(f'{ROOT}/.work/seed2run-*.log')))
 seeds = {}
-for m in re.finditer(r'SEED (C\d\d)-(\d) verify: (\{.*\})', logs):
-    try: seeds[f'{m.group(1)}-{m.group(2)}'] = {'verify': json.loads(m.group(3)), 'checks': []}
+def key(tag, pid, n): return f'{pid}-r2-{n}' if tag == '2' else f'{pid}-{n}'
+for m in re.finditer(r'SEED(2?) (C\d\d)-(\d) verify: (\{.*\})', logs):
+    try: seeds[key(m.group(1), m.group(2), m.group(3))] = {'verify': json.loads(m.group(4)), 'checks': []}
     except Exception: pass
-for m in re.finditer(r'SEED (C\d\d)-(\d) check (C\d\d) rc=(\d+) :: (.*?) :: (.*)', logs):
-    k = f'{m.group(1)}-{m.group(2)}'
-    seeds.setdefault(k, {'verify': None, 'checks': []})['checks'].append({'check': m.group(3), 'rc': int(m.group(4)), 'first': m.group(5).strip(), 'summary': m.group(6).strip()})
+for m in re.finditer(r'SEED(2?) (C\d\d)-(\d) check (C\d\d) rc=(\d+) :: (.*?) :: (.*)', logs):
+    k = key(m.group(1), m.group(2), m.group(3))
+    seeds.setdefault(k, {'verify': None, 'checks': []})['checks'].append({'check': m.group(4), 'rc': int(m.group(5)), 'first': m.group(6).strip(), 'summary': m.group(7).strip()})
 # earlier manual confirmations
-MANUAL_OK = {'C21-2', 'C19-2'}
+MANUAL_OK = {'C21-2', 'C19-2', 'C01-r2-1', 'C01-r2-2', 'C28-r2-2'}
 for k in ['C01-1','C01-2','C03-1','C03-2','C05-1','C05-2','C26-1','C26-2','C28-1','C28-2']:
     seeds.setdefault(k, {'verify': {"applies":True,"builds":True,"existing_tests_pass":True,"demo_fails_with_change":True,"demo_passes_without_change":True}, 'checks': []})
 rows = []
 for k in sorted(seeds):
-    pid, n = k.split('-')
-    src = f'/tmp/seed-{pid}-out/{n}'
+    parts = k.split('-')
+    pid, n = parts[0], parts[-1]
+    src = f'/tmp/seed2-{pid}-out/{n}' if '-r2-' in k else f'/tmp/seed-{pid}-out/{n}'
     v = seeds[k]['verify']
     dst = f'{ROOT}/seeded/{k}'
     if not os.path.isdir(src):
@@ -72,7 +80,7 @@ for k in sorted(seeds):
     shutil.copy(f'{src}/patch.diff', dst); shutil.copytree(f'{src}/demo', f'{dst}/demo')
     meta = json.load(open(f'{src}/meta.json'))
     meta.update({'confirmed_by_lead': v, 'confirmation_method': 'scripts/seedverify.py in a scratch worktree of /repo HEAD', 'check_runs': seeds[k]['checks'], 'detected_by': det, 'detection_note': note,
-                 'how_to_rerun': f'scripts/with-mutant.sh seeded/{k}/patch.diff ./vcheck {pid} --tier quick'})
+                 'how_to_rerun': f'scripts/with-mutant.sh seeded/{k}/patch.diff ./vcheck {pid} --tier quick', 'round': (2 if '-r2-' in k else 1)})
     json.dump(meta, open(f'{dst}/meta.json','w'), indent=1)
     rows.append((k, det))
 for k, d in rows: print(f'{k:7s} {d}')
